@@ -116,4 +116,13 @@ LexLines(tb, lines, elc, ln) ==
        ScanLine(tb, bf.b, bf.o, 1, "N", ln) \o LexLines(tb, lines, elc, ln + 1)
 
 Lex(lines, table, elc) == LexLines(table, lines, elc, 1)
+
+\* The end-line character is a parameter of the moment a line is loaded (TeX.2021.360-362): elcs[ln] is the one in
+\* force when line ln was read.  Every token still starts at its own source character.
+RECURSIVE LexLinesV(_, _, _, _)
+LexLinesV(tb, lines, elcs, ln) ==
+  IF ln > Len(lines) THEN <<>>
+  ELSE LET bf == Buffer(lines[ln], elcs[ln]) IN
+       ScanLine(tb, bf.b, bf.o, 1, "N", ln) \o LexLinesV(tb, lines, elcs, ln + 1)
+LexV(lines, table, elcs) == LexLinesV(table, lines, elcs, 1)
 ==============================================================================
